@@ -1152,6 +1152,14 @@ def store_family(ctx, st):
             v2w = c["Cfg"][0] <= c["BlockNo"]
             cr = c["CfgRead"] or c["Cfg"]
             v2r = cr[0] <= c["BlockNo"]
+            if o.get("receipts_skipped_version_mismatch"):
+                # the configuration of the restarted node selects the other receipt format for this block:
+                # CheckCompatibility must refuse it whenever the block is not above the best block
+                hf = run_engine(ctx, binpath, "TestVerifStoreEngine", [{"kind": "HF", "Cfg": c["Cfg"], "CfgRead": cr, "Best": c["BlockNo"], "DbJSON": ""}], "store_hf1")[0]
+                if hf.get("compat"):
+                    st.fail("C19:compat-accepts-v2-switch-change", "CheckCompatibility accepts a configuration that decodes stored receipts of block "
+                            "%d with the other format version" % c["BlockNo"], {"case": rep, "hardfork_obs": hf})
+                continue
             got = [vs_receipt_back(j) for j in o["receipts"]] if "receipts" in o else None
             want = [store_view(r, v2w) for r in rs]
             if v2w == v2r:
@@ -1195,6 +1203,13 @@ def store_family(ctx, st):
             st.fail("C19:hardfork-self-incompatible", "a validated configuration is reported incompatible with what it wrote itself", rep)
         if o.get("compat") and o["versions_read_written"][4] != o["versions_read_written"][5] and not c["DbJSON"]:
             st.fail("C19:compat-different-version", "restart accepted but the version at the best block differs from the one of the writing configuration", rep)
+        # direct predicate: a stored fork height that is already active (or the node's, if active) and differs must refuse the start
+        for i in range(4):
+            k = "V%d" % (i + 2)
+            if k in stored and stored[k] != cr[i] and min(stored[k], cr[i]) <= c["Best"] and o.get("compat") \
+                    and all(cr[j] <= cr[j + 1] for j in range(3)):
+                st.fail("C19:restart-accepts-changed-active-fork", "restart accepted although the stored %s height (%d) differs from the "
+                        "configured one (%d) and one of them is active at the best block %d" % (k, stored[k], cr[i], c["Best"]), rep)
         if not c["DbJSON"] or all(k in ("V2", "V3", "V4", "V5", "V6") for k in stored):
             sdb = "[" + ";".join("(%d, %d)" % (int(k[1:]), v) for k, v in sorted(stored.items())) + "]"
             hs = [o["db"].get("V%d" % (i + 2), 0) for i in range(4)]
